@@ -11,7 +11,7 @@ use std::io::Write;
 
 fn usage() -> ! {
     eprintln!(
-        "usage:\n  mmdump compile <file.mmm> [--scheduler]\n  mmdump replay [--in-process] <spec.json|->\n  mmdump statetree <spec.json>\n  mmdump ffi <spec.json|->"
+        "usage:\n  mmdump compile <file.mmm> [--scheduler]\n  mmdump replay [--in-process] <spec.json|->\n  mmdump statetree <spec.json>\n  mmdump ffi <spec.json|->\n  mmdump bridge <spec.json|->"
     );
     std::process::exit(2);
 }
@@ -46,6 +46,7 @@ fn main() {
         ),
         Some("statetree") => statetree::run(&read_spec(args.get(1))),
         Some("ffi") => ffi::run(&read_spec(args.get(1))),
+        Some("bridge") => ffi::run_bridge(&read_spec(args.get(1))),
         _ => usage(),
     };
     let text = serde_json::to_string(&value).expect("json serialisation");
